@@ -178,17 +178,17 @@ CHECKS = {
                       "established it writes exactly the given envelope once. (2) In both roles' real handshakes against an arbitrary scripted peer, a "
                       "data envelope injected before establishment aborts the handshake with every inbound stream empty, only session envelopes are "
                       "written before establishment, and the receiver goroutine (the only producer of the inbound streams) does not exist before it.",
-        "level_note": "Trusted: SSA->SMT executor, cooperative scheduler, z3. Bounds: handshake script depth 3 / 5. The window between the state check and "
+        "level_note": "Trusted: SSA->SMT executor, cooperative scheduler, z3. Bounds: handshake script depth 5 in both tiers (quick: one encryption configuration and transport; thorough: the 2 x 2 grid of them). The window between the state check and "
                       "transport.Send when another goroutine ends the session concurrently is outside the claim (instruction-level schedule).",
         "runs": [
             {"harness": "HarnessC06Send", "grid": {"op": [0, 1, 2, 3, 4, 5]}, "reach": ["c06:not-established"]},
             {"harness": "HarnessC06AfterEnd", "grid": {"end": [0, 1, 2, 3, 4], "buf": [0, 1]}, "reach": ["c06:session-ended"], "threads": True},
-            {"harness": "HarnessC06Inject", "grid": {"role": [0, 1]}, "params": {"depth": 3, "enccfg": 2, "transport": 0},
+            {"harness": "HarnessC06Inject", "grid": {"role": [0, 1]}, "params": {"depth": 5, "enccfg": 2, "transport": 0},
              "reach": ["c06:data-envelope-before-establishment"], "tier": "quick"},
             {"harness": "HarnessC06Inject", "grid": {"role": [0, 1], "enccfg": [0, 2], "transport": [0, 2]}, "params": {"depth": 5},
              "reach": ["c06:data-envelope-before-establishment"], "tier": "thorough"},
         ],
-        "bounds": {"quick": {"script_depth": 3}, "thorough": {"script_depth": 5}},
+        "bounds": {"quick": {"script_depth": 5}, "thorough": {"script_depth": 5}},
         "out": ["the window between the state check and transport.Send under a concurrent terminal transition"],
         "assumptions": [],
     },
